@@ -200,6 +200,19 @@ HsBothDone(sc) ==
     /\ everUp' = everUp \cup {c}
     /\ UNCHANGED <<psid, mc, pc, nConns, boxes, closes, v2>>
 
+\* both ends of a KK handshake in one step (trace validation: the server is
+\* done when it has written act 2 and the client when it has read it, but the
+\* client's report may overtake the server's)
+HsBothDoneKK(cc) ==
+    LET sc == conns[cc].peer  c == conns[cc].owner IN
+    /\ cc \in 1..nConns /\ c \in Clients /\ IsOpen(cc) /\ conns[cc].noise = "hs"
+    /\ sc # 0 /\ IsOpen(sc) /\ conns[sc].noise = "hs"
+    /\ conns[cc].pat = "KK" /\ conns[sc].pat = "KK" /\ HsCompatible(cc, sc)
+    /\ conns' = [conns EXCEPT ![sc].noise = "up", ![cc].noise = "up"]
+    /\ remote' = IF v2 THEN [remote EXCEPT ![Srv] = c, ![c] = Srv] ELSE remote
+    /\ everUp' = everUp \cup {c}
+    /\ UNCHANGED <<psid, mc, pc, nConns, boxes, closes, v2>>
+
 \* incompatible ends (patterns or keys differ): both handshakes fail, the
 \* owners close
 HsFail(i) ==
